@@ -279,6 +279,46 @@ pub fn run(o: &Opts) {
             sh.push(format!("C [] [R {} {} OOpaque]", seen.len(), coq::bool_(code == 0)), vec![rep]);
         }
     }
+    // names that differ only in letter case, or only in a trailing character: any
+    // "normalising" sort key would tie them and fall back to hash order
+    if !replay {
+        let n_names = if o.thorough { 30 } else { 8 };
+        let variants = [
+            ["Expenses:Food", "Expenses:food", "expenses:Food", "EXPENSES:FOOD"],
+            ["Assets:Bank", "Assets:bank", "Assets:Bank ", "Assets:BANK"],
+            ["Income:Job", "income:job", "Income:JOB", "INCOME:Job"],
+        ];
+        for k in 0..n_names {
+            let set = &variants[k % variants.len()];
+            let mut names: Vec<String> = set.iter().map(|s| s.trim_end().to_string()).collect();
+            names.dedup();
+            r.shuffle(&mut names);
+            let mut ledger = String::from("2020/01/05 open\n");
+            for (i, n) in names.iter().enumerate() {
+                ledger.push_str(&format!("    {}  {} USD\n", n, 1 + i + k));
+                if i % 2 == 0 {
+                    ledger.push_str(&format!("    {}  {} EUR\n", n, 2 + i));
+                }
+            }
+            ledger.push_str("    Equity:Opening\n");
+            let lp = scratch.write(&format!("names{}/l.ledger", k), &ledger);
+            for cmd in ["accounts", "balance", "register"] {
+                let args = vec![cmd.to_string(), lp.to_string_lossy().to_string()];
+                let mut seen: HashSet<(i32, String, String)> = HashSet::new();
+                let mut code = 0;
+                for _ in 0..n_runs.max(12) {
+                    let out = run_bin(&bin, &args);
+                    code = out.code;
+                    seen.insert((out.code, out.stdout, out.stderr));
+                }
+                st.eval(&(ledger.clone(), cmd), true);
+                st.count(&format!("cmd:case-variants-{}:{}", cmd, if code == 0 { "ok" } else { "fail" }));
+                let rep = json!({"property": "C13", "ledger": ledger, "args": args, "distinct_outputs": seen.len(),
+                                 "reproduce": "run the command repeatedly in fresh processes and diff"});
+                sh.push(format!("C [] [R {} {} OOpaque]", seen.len(), coq::bool_(code == 0)), vec![rep]);
+            }
+        }
+    }
     // conversions: equally good chains with different rates, and several missing rates
     if !replay {
         let n_conv = if o.thorough { 40 } else { 10 };
